@@ -8,6 +8,7 @@ import (
 	"bytes"
 	"encoding/json"
 	"fmt"
+	"sort"
 	"strconv"
 	"strings"
 )
@@ -468,7 +469,13 @@ func (s *TypedMapType) IsValidJson(data json.RawMessage,
 	subtype := s.Elem
 	isDir := (s.IsFile() == KindIsDirectory)
 	var errs ErrorList
-	for k, element := range m {
+	keys := make([]string, 0, len(m))
+	for k := range m {
+		keys = append(keys, k)
+	}
+	sort.Strings(keys)
+	for _, k := range keys {
+		element := m[k]
 		if err := subtype.IsValidJson(element, alarms, lookup); err != nil {
 			errs = append(errs, &IncompatibleTypeError{
 				Message: "key " + k,
@@ -504,7 +511,13 @@ func (s *TypedMapType) FilterJson(data json.RawMessage, lookup *TypeLookup) (jso
 	buf.Grow(len(data))
 	buf.WriteRune('{')
 	different := false
-	for i, m := range arr {
+	keys := make([]string, 0, len(arr))
+	for i := range arr {
+		keys = append(keys, i)
+	}
+	sort.Strings(keys)
+	for _, i := range keys {
+		m := arr[i]
 		if first {
 			first = false
 		} else {
